@@ -20,6 +20,7 @@ CHECKS = {
     "C05": ("c05", {}),
     "C06": ("c06", {}),
     "C08": ("c08", {}),
+    "C18": ("c18", {}),
 }
 
 
